@@ -843,6 +843,10 @@ class LayoutTyper(Structured):
             # `if A.domain == B.domain:` (Domain.__eq__ is order-sensitive): unify the two terms on the equal branch
             da, db = self.dom_term(t.left, st), self.dom_term(t.comparators[0], st)
             if da is not None and db is not None and da != db and truth == isinstance(t.ops[0], ast.Eq):
+                def occurs(x, y):
+                    return x == y or (isinstance(y, tuple) and any(occurs(x, z) for z in y))
+                if occurs(db, da):
+                    da, db = db, da          # rewrite the compound term to the one it is built from, not the other way round
                 old = st.get('#subst')
                 pairs = set(old.a) if old is not None else set()
                 pairs.add((db, da))
